@@ -417,6 +417,7 @@ func checkC02(c *Ctx) {
 	c02Dispatch(c)
 	// XR
 	c15RoundTrip(c)
+	c02CountRoundTrip(c)
 }
 
 // c02Dispatch re-runs the C07-SELF computation: the kinds a Marshal emits dispatch to its own type.
